@@ -35,15 +35,23 @@ def signature(kind, small, detail):
 NAV = ["ZoomIn", "ZoomOut", "MoveNext", "MovePrevious", "ZoomInAll", "ZoomOutAll", "MoveStart", "MoveEnd", "MoveLineStart", "MoveCellNext", "MoveCellDown", "MoveCellUp",
        "ReadNext", "DescribeCurrent", "WhereAmI", "MoveLastLocation", "SetPlacemarker1", "MoveTo1"]
 MARK = re.compile(r"""<(?:mark name|bookmark mark)=['"]([^'"]*)['"]""")
+NAV_MODES = ["Enhanced", "Simple", "Character"]
+
+
+def all_nav_commands():
+    from . import gen_hostile
+    return gen_hostile.nav_commands()
 
 
 def handout_phase(spec):
-    """ids handed out after set_mathml belong to the returned MathML"""
+    """ids handed out after set_mathml belong to the returned MathML.  Walks mix every navigation command the library knows (place markers that
+    were never set, last-location, toggles), positions put inside multi-character leaves with set_navigation_node(id, offset) and key presses."""
     st = core.Stats()
     rng = random.Random(spec["seed"])
     deadline = time.time() + spec["time_budget"]
     cases = list(spec.get("fixed", []))
     codes = ["Nemeth", "UEB", "CMU"]
+    every = all_nav_commands()
     for _ in range(spec["n"]):
         tb = gen.Textbook(rng, max_depth=rng.choice([2, 3]), p_ident=0.5)
         tree = tb.expression()[0]
@@ -53,47 +61,89 @@ def handout_phase(spec):
                 if rng.random() < 0.5:
                     k += 1
                     n.attrs["id"] = "au%d" % k
-        cases.append({"phase": "handout", "mathml": tree.xml(), "tts": rng.choice(["SSML", "SAPI5"]), "code": rng.choice(codes),
-                      "commands": [rng.choice(NAV) for _ in range(rng.randint(2, 10))], "positions": [rng.randint(0, 40) for _ in range(4)]})
+        steps = []
+        for _ in range(rng.randint(2, 14)):
+            k = rng.random()
+            if k < 0.45:
+                steps.append(["nav", rng.choice(NAV)])
+            elif k < 0.75:
+                steps.append(["nav", rng.choice(every)])
+            elif k < 0.93:
+                steps.append(["node", rng.random(), rng.choice([0, 0, 1, 1, 2, 3])])
+            else:
+                steps.append(["key", rng.choice([13, 32, 37, 38, 39, 40, 35, 36, 48, 49, 57]), rng.random() < 0.3, rng.random() < 0.3, rng.random() < 0.2, False])
+        cases.append({"phase": "handout", "mathml": tree.xml(), "tts": rng.choice(["SSML", "SAPI5"]), "code": rng.choice(codes), "nav_mode": rng.choice(NAV_MODES),
+                      "steps": steps, "positions": [rng.randint(0, 40) for _ in range(4)]})
     for case in cases:
         if time.time() > deadline:
             break
-        with core.Session({"TTS": case["tts"], "Bookmark": "true", "BrailleCode": case["code"]}) as sess:
-            ops = [("set_mathml", case["mathml"]), ("get_spoken_text",), ("get_navigation_mathml_id",)]
-            for c in case["commands"]:
-                ops += [("do_navigate_command", c), ("get_navigation_mathml_id",)]
+        with core.Session({"TTS": case["tts"], "Bookmark": "true", "BrailleCode": case["code"], "NavMode": case.get("nav_mode", "Enhanced")}) as sess:
+            r0 = sess.call("set_mathml", case["mathml"], timeout=30)
+            if r0 is None or r0["r"] != "ok":
+                continue
+            try:
+                root = ET.fromstring(r0["v"])
+            except ET.ParseError:
+                continue
+            id_list = [e.get("id") for e in root.iter() if e.get("id") is not None]
+            ids = set(id_list)
+            # leaves with more than one character are the places where an offset is meaningful
+            multi = [e.get("id") for e in root.iter() if len(e) == 0 and len((e.text or "").strip()) > 1 and e.get("id")]
+            ops = [("get_spoken_text",), ("get_navigation_mathml_id",)]
+            steps = case.get("steps")
+            if steps is None:        # witness format of earlier versions
+                steps = [["nav", c] for c in case.get("commands", [])]
+            for stp in steps:
+                if stp[0] == "nav":
+                    ops.append(("do_navigate_command", stp[1]))
+                elif stp[0] == "node":
+                    pool = multi if (multi and stp[2] > 0) else id_list
+                    if not pool:
+                        continue
+                    ops.append(("set_navigation_node", pool[int(stp[1] * len(pool)) % len(pool)], stp[2]))
+                else:
+                    ops.append(("do_navigate_keypress",) + tuple(stp[1:]))
+                ops.append(("get_navigation_mathml_id",))
+                ops.append(("get_navigation_mathml",))
             ops.append(("get_braille", ""))
             for p in case["positions"]:
                 ops.append(("get_navigation_node_from_braille_position", p))
             res = sess.batch(ops, timeout=60)
-            if res is None or res[0]["r"] != "ok":
+            if res is None:
                 continue
             st.evaluations += 1
-            try:
-                root = ET.fromstring(res[0]["v"])
-            except ET.ParseError:
-                continue
-            ids = set(e.get("id") for e in root.iter() if e.get("id") is not None)
             bad = None
-            if res[1]["r"] == "ok":
-                marks = MARK.findall(res[1]["v"])
+            if res[0]["r"] == "ok":
+                marks = MARK.findall(res[0]["v"])
                 st.count("bookmark_ids_checked", len(marks))
                 for m in marks:
                     if m not in ids:
                         bad = ("bookmark-id-unknown", "speech bookmark names id %r which is not in the returned MathML" % m)
                         break
-            for (op, r) in zip(ops[2:], res[2:]):
+            last = None
+            for (op, r) in zip(ops[1:], res[1:]):
                 if bad:
                     break
+                if op[0] in ("do_navigate_command", "set_navigation_node", "do_navigate_keypress"):
+                    last = op
+                    st.count("steps_" + op[0] + "_" + r["r"])
+                    if op[0] == "set_navigation_node" and op[2] > 0 and r["r"] == "ok":
+                        st.count("positions_inside_a_leaf")
                 if op[0] in ("get_navigation_mathml_id", "get_navigation_node_from_braille_position") and r["r"] == "ok":
                     st.count("handed_out_ids_checked")
                     if r["v"][0] not in ids:
                         bad = ("%s-id-unknown" % ("navigation" if op[0] == "get_navigation_mathml_id" else "braille-position"),
-                               "%s returned id %r which is not in the returned MathML" % (op[0], r["v"][0]))
+                               "%s returned id %r (offset %r) which is not in the returned MathML, after %s" % (op[0], r["v"][0], r["v"][1] if len(r["v"]) > 1 else None, str(last)[:120]))
+                if op[0] == "get_navigation_mathml" and r["r"] == "ok":
+                    m = re.search(r"""\sid=['"]([^'"]*)['"]""", r["v"][0])
+                    if m:
+                        st.count("navigation_mathml_roots_checked")
+                        if m.group(1) not in ids:
+                            bad = ("navigation-mathml-id-unknown", "get_navigation_mathml returned a tree whose root id %r is not in the returned MathML, after %s" % (m.group(1), str(last)[:120]))
             if bad:
                 st.violations.append(core.violation(bad[0], bad[0], case, bad[1] + " | " + case["mathml"][:300]))
             else:
-                st.nontrivial.add(core.h16(case["mathml"] + "|".join(case["commands"])))
+                st.nontrivial.add(core.h16(case["mathml"] + repr(steps)))
     return st.to_dict()
 
 
@@ -184,6 +234,7 @@ def run(tier, seed):
          "a token merged into a neighbour or deleted may lose its id; if the id is present it must sit on an element containing the token's text"],
         t0,
         rule="degenerate and textbook MathML with author-id policies none/some/all/duplicate: every Ok set_mathml result is checked for an id on every element, "
-             "pairwise distinct ids, author ids staying on their token's text; second phase: ids returned by navigation, braille-position lookup and SSML/SAPI5 bookmarks "
+             "pairwise distinct ids, author ids staying on their token's text; second phase: random walks (every command name of navigate.rs incl. unset place markers, set_navigation_node with offsets inside "
+             "multi-character leaves, key presses; 3 NavModes): ids returned by get_navigation_mathml_id / get_navigation_mathml, braille-position lookup and SSML/SAPI5 bookmarks "
              "must be ids of the returned MathML; third phase: returned MathML (with generated ids) is sent back inside a larger expression and all ids must again be distinct; non-trivial = inputs that carried author ids (phase 1) / walks whose ids were all checked (phase 2)",
         min_nontrivial=300, harness_errors=errors, known_replayed=known, fixed_failures=fixed_failures)
